@@ -55,6 +55,7 @@ class Contract:
         self.ignore_calls = set()   # names of calls dropped (print, logging)
         self.variants = None    # list of dicts: run the proof once per variant (e.g. receiver class)
         self.recv_class = None  # class key of `self` when different from the defining class
+        self.at_raise = set()
 
     # -- declaration helpers
     def param(self, name, desc):
@@ -73,8 +74,12 @@ class Contract:
         self.ensures_.append((label or f"post{len(self.ensures_)}", text))
         return self
 
-    def raises(self, exc, when="True", iff=False):
+    def raises(self, exc, when="True", iff=False, at_raise=False):
+        """`when` is a pre-state predicate (evaluated at entry) unless at_raise=True, in which case it is
+        read at the raise point and may mention the function's locals (ghost access)."""
         self.raises_.append((exc, when, iff))
+        if at_raise:
+            self.at_raise.add(len(self.raises_) - 1)
         return self
 
     def modifies(self, *lvalues):
